@@ -1,1 +1,332 @@
-Example C14_placeholder : True. Proof. exact I. Qed.
+(* Properties_C14.v — C14: user callbacks see exactly the parsed items, and their verdict binds.
+   Only statements here; proofs are in CallbackProofs.v.
+
+   MODEL  Parser.setopt (cfg_setopt), Parser.init_defaults (cfg_init_defaults), Parser.parse_internal
+          (cfg_parse_internal) with the scripted callbacks run_parsecb / run_validcb / the FUser branch of
+          states 8, 9; Api.run_validcb2 / cfg_setnint.  Every scripted invocation goes through `tick`
+          (counter + 1; it fails iff the counter reaches w_failat) and is logged on w_cbs, most recent first.
+   VOCABULARY (CallbackProofs.v)
+     failed_entry e     the `failed` flag of a CbParse / CbValid / CbValid2 / CbFunc entry; false for CbFree
+     is_call e          e is an invocation (anything but CbFree, which records a release)
+     calls l            number of invocations in l
+     fresh w w'         exists new, w_cbs w' = new ++ w_cbs w           (the log only grows)
+     failed_is_last new forall pre e post, new = pre ++ e :: post -> failed_entry e = true -> pre = []
+                        (a failed entry is the most recent one: NOTHING — no invocation and not even a
+                         release — is logged after it; in particular at most one entry is failed)
+     some_failed new    exists e, In e new /\ failed_entry e = true
+     parses o           o is of kind int / float / string / bool / ptr and has a parse callback
+     script_fails fa n  the script's verdict for invocation number n:  fa <> 0 and n = fa
+     script_ok n fa l   the entries l (oldest first) carry, invocation by invocation, the verdicts
+                        script_fails fa (n+1), script_fails fa (n+2), ...
+     only_one_failed new  forall pre e post, new = pre ++ e :: post -> failed_entry e = true ->
+                        clean pre /\ clean post        (clean l: no entry of l is failed)
+     R w w' err         the induction invariant: w_failat unchanged, the crash marker is never reset,
+                        w_cbs w' = new ++ w_cbs w, w_cnt w' = w_cnt w + calls new,
+                        script_ok (w_cnt w) (w_failat w) (rev new), and — as long as the crash marker
+                        is not set — no new entry failed, or err = true and the head of `new` is the
+                        one failed entry
+     Q w w'             w_failat, w_cbs, w_cnt unchanged, the crash marker is never reset
+   SIDE CONDITION  (b) and (c) of C14_verdict_binds are stated for runs that end with w_crash = None.
+     The reason is cfg_init_defaults: a callback that fails inside a default value makes it call abort();
+     the model records the marker "abort:cfg_init_defaults" and goes on, so after that marker the log
+     can contain invocations made by a process that no longer exists (C14_ex_abort_then_more). *)
+From Coq Require String.
+Import String.StringSyntax.
+From Coq Require Import List Arith NArith ZArith Bool.
+From Coq.Strings Require Import Byte.
+From LC Require Import Bytes Consts Conv Flex LexAct Lexer Files Store Parser Api HdrProofs ApiProofs CallbackProofs.
+Import ListNotations.
+Local Open Scope string_scope.
+Local Open Scope list_scope.
+
+(* 1. the flagship.  For every run of cfg_parse_internal / cfg_setopt / cfg_init_defaults, whatever the
+   fuel, the world, the tree and the parser state:
+   (a) the log only grows;
+   (b) a failed entry is the last thing logged: no callback is invoked (and nothing released) after a
+       failed invocation;
+   (c) a failed invocation makes cfg_parse_internal answer STATE_ERROR, cfg_setopt answer NULL (and the
+       failed one was the parse callback of that very option), cfg_init_defaults abort. *)
+Theorem C14_verdict_binds :
+  forall (strtod_o : str -> strtod_res) (fuel : nat),
+  (forall w c level p w' c' rc,
+     parse_internal strtod_o fuel w c level p = (w', c', rc) ->
+     exists new,
+       w_cbs w' = new ++ w_cbs w /\
+       (w_crash w' = None -> failed_is_last new) /\
+       (w_crash w' = None -> some_failed new -> rc = PERR)) /\
+  (forall w c o txt w' o' res,
+     setopt strtod_o fuel w c o txt = (w', o', res) ->
+     exists new,
+       w_cbs w' = new ++ w_cbs w /\
+       (w_crash w' = None -> failed_is_last new) /\
+       (w_crash w' = None -> some_failed new -> res = None /\ parses o = true)) /\
+  (forall w c w' c',
+     init_defaults strtod_o fuel w c = (w', c') ->
+     exists new,
+       w_cbs w' = new ++ w_cbs w /\
+       (some_failed new -> w_crash w' <> None)).
+Proof. exact verdict_binds. Qed.
+Print Assumptions C14_verdict_binds.
+
+(* (a) on its own, with no side condition *)
+Theorem C14_log_grows :
+  forall (strtod_o : str -> strtod_res) (fuel : nat),
+  (forall w c o txt, fresh w (fst (fst (setopt strtod_o fuel w c o txt)))) /\
+  (forall w c, fresh w (fst (init_defaults strtod_o fuel w c))) /\
+  (forall w c l p, fresh w (fst (fst (parse_internal strtod_o fuel w c l p)))).
+Proof. exact log_grows. Qed.
+Print Assumptions C14_log_grows.
+
+(* the invariant itself, for the three functions (this is what the mutual induction on the fuel proves) *)
+Theorem C14_invariant :
+  forall (strtod_o : str -> strtod_res) (fuel : nat),
+  (forall w c o txt,
+     R w (fst (fst (setopt strtod_o fuel w c o txt)))
+       (isnone (snd (setopt strtod_o fuel w c o txt)) && parses o)) /\
+  (forall w c, R w (fst (init_defaults strtod_o fuel w c)) false) /\
+  (forall w c l p,
+     R w (fst (fst (parse_internal strtod_o fuel w c l p)))
+       (isperr (snd (parse_internal strtod_o fuel w c l p)))).
+Proof. exact setopt_init_parse_R. Qed.
+Print Assumptions C14_invariant.
+
+(* the one-step facts: each scripted callback is one tick and one entry whose flag is the verdict handed
+   to the caller; releases and cfg_handle_deprecated only log CbFree; cfg_lexer_include and the lexer
+   do not touch the callback state *)
+Theorem C14_one_step :
+  (forall w k o v, R w (fst (run_parsecb w k o v)) (snd (run_parsecb w k o v))) /\
+  (forall w o, R w (fst (run_validcb w o)) (snd (run_validcb w o))) /\
+  (forall w o a, R w (fst (fst (run_validcb2 w o a))) (snd (run_validcb2 w o a))) /\
+  (forall w e, is_call e = true -> failed_entry e = snd (tick w) ->
+               R w (add_cb (fst (tick w)) e) (snd (tick w))) /\
+  (forall w ids, R w (log_frees w ids) false /\ w_cbs (log_frees w ids) = rev (map CbFree ids) ++ w_cbs w) /\
+  (forall w c r, R w (fst (handle_deprecated w c r)) false) /\
+  (forall w c a, Q w (fst (fst (lexer_include w c a)))) /\
+  (forall fl w c, Q w (fst (fst (fst (next_token fl w c))))).
+Proof. exact one_step_facts. Qed.
+Print Assumptions C14_one_step.
+
+(* 2. the invocation counter never decreases and advances by exactly the number of logged invocations
+   (one tick per CbParse / CbValid / CbFunc entry, none for CbFree); the script position w_failat is
+   never touched.  No side condition. *)
+Theorem C14_counter_monotone :
+  forall (strtod_o : str -> strtod_res) (fuel : nat),
+  (forall w c o txt, let w' := fst (fst (setopt strtod_o fuel w c o txt)) in
+     exists new, w_cbs w' = new ++ w_cbs w /\ w_cnt w' = (w_cnt w + N.of_nat (calls new))%N /\
+                 (w_cnt w <= w_cnt w')%N /\ w_failat w' = w_failat w) /\
+  (forall w c, let w' := fst (init_defaults strtod_o fuel w c) in
+     exists new, w_cbs w' = new ++ w_cbs w /\ w_cnt w' = (w_cnt w + N.of_nat (calls new))%N /\
+                 (w_cnt w <= w_cnt w')%N /\ w_failat w' = w_failat w) /\
+  (forall w c l p, let w' := fst (fst (parse_internal strtod_o fuel w c l p)) in
+     exists new, w_cbs w' = new ++ w_cbs w /\ w_cnt w' = (w_cnt w + N.of_nat (calls new))%N /\
+                 (w_cnt w <= w_cnt w')%N /\ w_failat w' = w_failat w).
+Proof. exact counter_monotone. Qed.
+Print Assumptions C14_counter_monotone.
+
+(* 2'. (b) without the side condition, in the weaker form that survives the abort marker: the logged
+   verdicts are exactly what the script dictates for invocations w_cnt w + 1, w_cnt w + 2, ..., hence at
+   most one new entry is failed in any run. *)
+Theorem C14_verdicts_follow_script :
+  forall (strtod_o : str -> strtod_res) (fuel : nat),
+  (forall w c o txt, let w' := fst (fst (setopt strtod_o fuel w c o txt)) in
+     exists new, w_cbs w' = new ++ w_cbs w /\
+                 script_ok (w_cnt w) (w_failat w) (rev new) /\ only_one_failed new) /\
+  (forall w c, let w' := fst (init_defaults strtod_o fuel w c) in
+     exists new, w_cbs w' = new ++ w_cbs w /\
+                 script_ok (w_cnt w) (w_failat w) (rev new) /\ only_one_failed new) /\
+  (forall w c l p, let w' := fst (fst (parse_internal strtod_o fuel w c l p)) in
+     exists new, w_cbs w' = new ++ w_cbs w /\
+                 script_ok (w_cnt w) (w_failat w) (rev new) /\ only_one_failed new).
+Proof. exact verdicts_follow_script. Qed.
+Print Assumptions C14_verdicts_follow_script.
+
+(* 3. one cfg_setopt call on an int / float / bool / string option with parse callback k.
+   Exactly one entry CbParse k name txt f is logged, after the releases of the RESET drop; txt is the
+   text handed in; f is what the script says for this invocation.
+   f = false: the result is the slot index and the slot holds the scripted value.
+   f = true : the result is NULL and the option handed back is o1 — NOT the option passed in: the RESET
+              drop has happened (old values released, RESET cleared) and, when a slot had to be
+              appended (no value yet, or LIST / MULTI), the zero slot is there and MODIFIED is set. *)
+Theorem C14_parse_callback_contract :
+  forall (strtod_o : str -> strtod_res) (fuel : nat) (w : pw) (c : cfg) (o : opt) (txt : option str) (k : N),
+  scalar_kind (o_kind o) -> cb_parse (o_cbs o) = Some k ->
+  let res := setopt strtod_o (S fuel) w c o txt in
+  let w' := fst (fst res) in
+  let o' := snd (fst res) in
+  let o0 := reset_drop o in
+  let n := length (o_vals o0) in
+  let appended := Nat.eqb n 0 || oflag o0 CFGF_MULTI || oflag o0 CFGF_LIST in
+  let o1 := if appended then addval o0 else o0 in
+  let idx := if appended then n else 0 in
+  let f := snd (tick w) in
+  let v := scripted_value (o_kind o) k txt in
+  w_cbs w' = CbParse k (o_name o) txt f :: rev (map CbFree (reset_frees o)) ++ w_cbs w /\
+  w_cnt w' = (w_cnt w + 1)%N /\
+  (f = true -> snd res = None /\ o' = o1) /\
+  (f = false ->
+     snd res = Some idx /\
+     o' = o_setf (set_vals o1 (upd_nth (o_vals o1) idx (fun _ => v))) CFGF_MODIFIED /\
+     nth_error (o_vals o') idx = Some v).
+Proof. exact parse_callback_contract. Qed.
+Print Assumptions C14_parse_callback_contract.
+
+(* 4. cfg_setnint on a resolved integer option with validate2 callback k: exactly one CbValid2 entry,
+   carrying the ORIGINAL value z; a veto gives CFG_FAIL and the tree passed in; otherwise cfg_opt_setnint
+   stores z' = |z| when k = 1 (the rewriting script) and z for every other k. *)
+Theorem C14_validate2_veto_and_rewrite :
+  forall (w : pw) (c : cfg) (name : str) (z : Z) (index : N) (r : optref) (o : opt) (k : N),
+  fst (cfg_getopt c name) = Some r -> get_opt c r = Some o ->
+  o_kind o = KInt -> cb_valid2 (o_cbs o) = Some k ->
+  let res := cfg_setnint w c name z index in
+  let w' := fst (fst res) in
+  let c' := snd (fst res) in
+  let f := snd (tick w) in
+  let z' := if (k =? 1)%N then Z.abs z else z in
+  (exists frees, w_cbs w' = rev (map CbFree frees) ++ CbValid2 k (o_name o) (V2Int z) f :: w_cbs w /\
+                 (f = true -> frees = [])) /\
+  w_cnt w' = (w_cnt w + 1)%N /\
+  (f = true -> snd res = FAIL /\ c' = c) /\
+  (f = false ->
+     c' = put_opt c r (snd (fst (opt_setn w o KInt (VInt z') index))) /\
+     snd res = snd (opt_setn w o KInt (VInt z') index)) /\
+  (f = false -> (index = 0%N \/ oflag o CFGF_LIST = true \/ oflag o CFGF_MULTI = true) ->
+     snd res = OK /\
+     exists o', c' = put_opt c r o' /\ o_vals o' = setn_vals o (VInt z') index).
+Proof. exact validate2_contract. Qed.
+Print Assumptions C14_validate2_veto_and_rewrite.
+
+(* 5. the function callback.  States 8 / 9 of cfg_parse_internal: when the closing parenthesis arrives,
+   the user function k of the current option is invoked once with the arguments collected so far, and
+   its verdict decides between STATE_ERROR and going on (with the argument list emptied) ... *)
+Theorem C14_function_arguments :
+  forall (strtod_o : str -> strtod_res) (fuel : nat) (w : pw) (c : cfg) (level : nat) (p : pst)
+         (w1 : pw) (c1 : cfg) (yylval : option str) (r : optref) (o : opt) (k : N),
+  next_token fuel w c = (w1, c1, TPunct 41, yylval) ->
+  (s_state p = 8 \/ s_state p = 9) ->
+  s_opt p = Some r -> get_opt c1 r = Some o -> cb_func (o_cbs o) = Some (FUser k) ->
+  let f := snd (tick w1) in
+  let w2 := add_cb (fst (tick w1)) (CbFunc k (o_name o) (s_args p) f) in
+  parse_internal strtod_o (S fuel) w c level p =
+  if f then (w2, c1, PERR) else parse_internal strtod_o fuel w2 c1 level (st_state (st_args p []) 0).
+Proof. exact function_arguments. Qed.
+Print Assumptions C14_function_arguments.
+
+(* ... and the arguments are collected in input order: in state 8 a string token is appended at the end *)
+Theorem C14_function_argument_collected :
+  forall (strtod_o : str -> strtod_res) (fuel : nat) (w : pw) (c : cfg) (level : nat) (p : pst)
+         (w1 : pw) (c1 : cfg) (yylval : option str),
+  next_token fuel w c = (w1, c1, TStr, yylval) ->
+  s_state p = 8 ->
+  parse_internal strtod_o (S fuel) w c level p =
+  parse_internal strtod_o fuel w1 c1 level (st_state (st_args p (s_args p ++ [sval yylval])) 9).
+Proof. exact function_argument_collected. Qed.
+Print Assumptions C14_function_argument_collected.
+
+(* ---------- a concrete schema with callbacks ---------- *)
+Module Ex.
+Definition B := bs_of_string.
+Definition sd := ex_sd.
+Definition cbs (p v v2 : option N) (fn : option funcid) : cbset :=
+  {| cb_parse := p; cb_valid := v; cb_valid2 := v2; cb_print := None; cb_free := false; cb_func := fn |}.
+(* i: integer, parse callback 3, validate 5, validate2 1 (the rewriting one); l: string list, validate 6;
+   f: user function 7; s: section with validate 9 whose integer a has validate 8 *)
+Definition decls : list opt :=
+  [ Opt (B "i") KInt 0 [] [] defv0 None (cbs (Some 3%N) (Some 5%N) (Some 1%N) None);
+    Opt (B "l") KStr CFGF_LIST [] [] defv0 None (cbs None (Some 6%N) None None);
+    Opt (B "f") KFunc 0 [] [] defv0 None (cbs None None None (Some (FUser 7)));
+    Opt (B "s") KSec 0 [] [Opt (B "a") KInt 0 [] [] defv0 None (cbs None (Some 8%N) None None)]
+        defv0 None (cbs None (Some 9%N) None None) ].
+(* a world whose n-th callback invocation fails (0: none does) *)
+Definition wfail (n : N) : pw :=
+  {| w_lex := w_lex ex_w0; w_env := w_env ex_w0; w_fs := w_fs ex_w0; w_pw := w_pw ex_w0; w_path := w_path ex_w0;
+     w_cbs := []; w_cnt := 0; w_failat := n; w_nextptr := 1; w_diags := []; w_open := 0; w_crash := None; w_oof := false |}.
+Definition c0 := snd (cfg_init sd 1000 ex_w0 decls 0).
+Definition txt := B "i = 12 l = {x, yy} f(a, b, c) s { a = 1 }".
+Definition run (n : N) := parse_buf sd 5000 (wfail n) c0 (Some txt).
+Definition log (n : N) : list cbent := w_cbs (fst (fst (run n))).
+
+(* the declarations have no scripted defaults: cfg_init invokes nothing *)
+Example C14_ex_init_silent :
+  let w := fst (cfg_init sd 1000 ex_w0 decls 0) in w_cbs w = [] /\ w_cnt w = 0%N /\ w_crash w = None.
+Proof. vm_compute. repeat split; reflexivity. Qed.
+
+(* nobody objects: eight invocations, in input order, each with the item just parsed — the text "12" for
+   the parse callback, the sizes 1, 2 after each list element and 2 again at the closing brace, the three
+   arguments a, b, c in order, the inner option before its section — and CFG_SUCCESS *)
+Example C14_ex_all_pass :
+  rev (log 0) =
+    [ CbParse 3 (B "i") (Some (B "12")) false; CbValid 5 (B "i") 1 false;
+      CbValid 6 (B "l") 1 false; CbValid 6 (B "l") 2 false; CbValid 6 (B "l") 2 false;
+      CbFunc 7 (B "f") [B "a"; B "b"; B "c"] false;
+      CbValid 8 (B "a") 1 false; CbValid 9 (B "s") 1 false ] /\
+  snd (run 0) = CFG_SUCCESS /\ w_cnt (fst (fst (run 0))) = 8%N /\ w_crash (fst (fst (run 0))) = None.
+Proof. vm_compute. repeat split; reflexivity. Qed.
+
+(* the second invocation fails: the log has exactly two entries, the last one is the failed one, the
+   result is CFG_PARSE_ERROR — and STATE_ERROR for cfg_parse_internal itself *)
+Example C14_ex_fail_at_2 :
+  log 2 = [ CbValid 5 (B "i") 1 true; CbParse 3 (B "i") (Some (B "12")) false ] /\
+  length (log 2) = 2 /\ map failed_entry (log 2) = [true; false] /\
+  snd (run 2) = CFG_PARSE_ERROR /\
+  snd (parse_internal sd 5000 (upd_lex (wfail 2) (scan_begin (w_lex (wfail 2)) (cstr txt)))
+                      (set_line (set_file c0 (Some (B "[buf]"))) 1) 0 (pst0 0 None)) = PERR.
+Proof. vm_compute. repeat split; reflexivity. Qed.
+
+(* whichever of the eight invocations fails: exactly that many entries, the most recent one failed and
+   no other, CFG_PARSE_ERROR, no crash marker *)
+Example C14_ex_fail_each :
+  forallb (fun n =>
+    let r := run (N.of_nat n) in
+    let l := w_cbs (fst (fst r)) in
+    Nat.eqb (length l) n &&
+    match l with e :: rest => failed_entry e && forallb (fun x => negb (failed_entry x)) rest | [] => false end &&
+    (snd r =? CFG_PARSE_ERROR)%Z && (w_cnt (fst (fst r)) =? N.of_nat n)%N &&
+    match w_crash (fst (fst r)) with None => true | Some _ => false end)
+    [1; 2; 3; 4; 5; 6; 7; 8] = true.
+Proof. vm_compute. reflexivity. Qed.
+
+(* 3 on the option i as cfg_init left it (one default value 0, RESET set): success stores
+   strlen "12" + 3 = 5 in slot 0; a failing callback gives NULL — and the default value is gone, a zero
+   slot in its place, RESET cleared *)
+Definition oi : opt := nth 0 (c_opts c0) (Opt [] KNone 0 [] [] defv0 None cbset0).
+Example C14_ex_parse_callback :
+  o_vals oi = [VInt 0] /\ oflag oi CFGF_RESET = true /\
+  (let '(w, o', res) := setopt sd 10 (wfail 0) c0 oi (Some (B "12")) in
+   res = Some 0 /\ o_vals o' = [VInt 5] /\ w_cbs w = [CbParse 3 (B "i") (Some (B "12")) false]) /\
+  (let '(w, o', res) := setopt sd 10 (wfail 1) c0 oi (Some (B "12")) in
+   res = None /\ o_vals o' = [VInt 0] /\ oflag o' CFGF_RESET = false /\ oflag o' CFGF_MODIFIED = true /\
+   w_cbs w = [CbParse 3 (B "i") (Some (B "12")) true]).
+Proof. vm_compute. repeat split; reflexivity. Qed.
+
+(* 4: validate2 script 1 sees -5 and has 5 stored; a veto leaves the tree alone *)
+Example C14_ex_validate2 :
+  (let '(w, c', rc) := cfg_setnint (wfail 0) c0 (B "i") (-5) 0 in
+   rc = OK /\ w_cbs w = [CbValid2 1 (B "i") (V2Int (-5)) false] /\
+   option_map o_vals (get_opt c' ([], 0)) = Some [VInt 5]) /\
+  (let '(w, c', rc) := cfg_setnint (wfail 1) c0 (B "i") (-5) 0 in
+   rc = FAIL /\ w_cbs w = [CbValid2 1 (B "i") (V2Int (-5)) true] /\ c' = c0).
+Proof. vm_compute. repeat split; reflexivity. Qed.
+
+(* why the side condition: defaults given as text go through the parse callback inside cfg_init.
+   The section s holds a (default "5", parse callback 1); b (default "6", parse callback 2) follows.
+   With the first invocation failing, cfg_init_defaults of s aborts — the model sets the marker and
+   goes on, so the log shows an invocation AFTER the failed one, made by a process that is dead. *)
+Definition dtxt (s : String.string) : defv :=
+  {| d_num := 0; d_fp := 0; d_bool := false; d_str := None; d_parsed := Some (B s) |}.
+Definition decls2 : list opt :=
+  [ Opt (B "s") KSec 0 [] [Opt (B "a") KInt 0 [] [] (dtxt "5") None (cbs (Some 1%N) None None None)]
+        defv0 None cbset0;
+    Opt (B "b") KInt 0 [] [] (dtxt "6") None (cbs (Some 2%N) None None None) ].
+Example C14_ex_abort_then_more :
+  let w := fst (cfg_init sd 1000 (wfail 1) decls2 0) in
+  w_cbs w = [ CbParse 2 (B "b") (Some (B "6")) false; CbParse 1 (B "a") (Some (B "5")) true ] /\
+  w_crash w = Some (B "abort:cfg_init_defaults").
+Proof. vm_compute. split; reflexivity. Qed.
+
+(* without a failure the same declarations initialise quietly: two invocations, no marker *)
+Example C14_ex_defaults_pass :
+  let w := fst (cfg_init sd 1000 (wfail 0) decls2 0) in
+  w_cbs w = [ CbParse 2 (B "b") (Some (B "6")) false; CbParse 1 (B "a") (Some (B "5")) false ] /\
+  w_crash w = None.
+Proof. vm_compute. split; reflexivity. Qed.
+End Ex.
